@@ -367,6 +367,9 @@ class MPState:
         return out
 
 
+_REAL_MANAGER = real_mp.Manager
+
+
 class SimMPModule:
     """Stands in for the ``multiprocessing`` module inside ``inference.inference``."""
 
@@ -381,7 +384,7 @@ class SimMPModule:
     def Manager(self):
         s = seams.SIM
         if s is None or not s.active:
-            return real_mp.Manager()
+            return _REAL_MANAGER()
         s.probe("mp_manager")
         return SimManager(self._st())
 
@@ -398,7 +401,67 @@ class SimMPModule:
 SIMMP = SimMPModule()
 
 
+class _NotModelled:
+    def __init__(self, name, real):
+        self.name, self.real = name, real
+
+    def __call__(self, *a, **kw):
+        s = seams.SIM
+        if s is None or not s.active:
+            return self.real(*a, **kw)
+        raise seams.HarnessError("multiprocessing.%s is not modelled by SimMP" % self.name)
+
+
 def install():
+    """Bind the seam under the name the module uses today AND on the multiprocessing module
+    itself, so that other import styles (`import multiprocessing`, `from multiprocessing import
+    Process, Manager`, `get_context('fork')`) reach it too."""
     import inference.inference as ii
 
-    ii.mp = SIMMP
+    if hasattr(ii, "mp"):
+        ii.mp = SIMMP
+    real_mp.Manager = SIMMP.Manager
+    real_Process = real_mp.Process
+    SIMMP._real_Process = real_Process
+
+    class _ProcessMeta(type):
+        def __instancecheck__(cls, obj):
+            return isinstance(obj, (SimProcess, real_Process))
+
+    class Process(metaclass=_ProcessMeta):
+        def __new__(cls, group=None, target=None, name=None, args=(), kwargs=None, daemon=None):
+            s = seams.SIM
+            if s is None or not s.active:
+                return real_Process(group=group, target=target, name=name, args=args, kwargs=kwargs or {}, daemon=daemon)
+            return SimProcess(SIMMP._st(), target, args, kwargs)
+
+    real_mp.Process = Process
+    SIMMP.Process = lambda group=None, target=None, name=None, args=(), kwargs=None, daemon=None: Process(group, target, name, args, kwargs, daemon)
+    real_get_context = real_mp.get_context
+
+    def get_context(method=None):
+        s = seams.SIM
+        if s is None or not s.active:
+            return real_get_context(method)
+        if method not in (None, "fork"):
+            raise seams.HarnessError("only the fork start method is modelled by SimMP (asked for %r)" % (method,))
+        return SIMMP
+
+    real_mp.get_context = get_context
+    SIMMP.get_context = get_context
+    for name in ("Queue", "SimpleQueue", "JoinableQueue", "Pipe", "Pool", "Value", "Array"):
+        if hasattr(real_mp, name):
+            setattr(real_mp, name, _NotModelled(name, getattr(real_mp, name)))
+    for name in ("Process", "Manager"):
+        if hasattr(ii, name):
+            setattr(ii, name, getattr(real_mp, name))
+
+    def active_children():
+        s = seams.SIM
+        if s is None or not s.active:
+            return SIMMP._real_active_children()
+        st = SIMMP.state
+        return [p for p in (st.processes if st else []) if p.is_alive()]
+
+    SIMMP._real_active_children = real_mp.active_children
+    real_mp.active_children = active_children
